@@ -84,7 +84,7 @@ package failsafe
 //@   let c := ret(e.ctx.Err, 1) != nil
 //@   ensures [C08.retry.attribution+C15.cancel.reported] c && old(cellof(e.canceledResult, *common.PolicyResult)) != nil ==> result == old(cellof(e.canceledResult, *common.PolicyResult))
 //@   ensures [C08.retry.cancelled] c ==> result != nil && e.attempts.v == old(e.attempts.v) && e.retries.v == old(e.retries.v) && canceled(e.ctx)
-//@   ensures [C17.retry.counts] !c ==> result == nil && e.attempts.v == old(e.attempts.v) + 1 && e.retries.v == old(e.retries.v) + 1 && cellof(e.canceledResult, *common.PolicyResult) == nil
+//@   ensures [C17.retry.counts+C07.retry_clears_the_recorded_cancel_result] !c ==> result == nil && e.attempts.v == old(e.attempts.v) + 1 && e.retries.v == old(e.retries.v) + 1 && cellof(e.canceledResult, *common.PolicyResult) == nil
 //@   modifies e.attempts.v, e.retries.v, e.attemptStartTime, *e.canceledResult, canceled(e.ctx), calls(e.ctx.Err)
 
 // ---------------------------------------------------------------------------------------------
